@@ -323,6 +323,54 @@ def wellFormed (c : Crs) : Bool :=
       | _, none => true
       | _, some _ => false)
 
+
+/-! ## exact agreement (decidable; what `C20_parse_agree` is about) -/
+
+def View.beq (a b : View XR) : Bool :=
+  a.proj == b.proj && a.lat0 == b.lat0 && a.lat1 == b.lat1 && a.lat2 == b.lat2 && a.latTS == b.latTS && a.long0 == b.long0
+  && a.k0 == b.k0 && a.x0 == b.x0 && a.y0 == b.y0 && a.a == b.a && a.b == b.b && a.rf == b.rf && a.es == b.es && a.ep2 == b.ep2
+  && a.sphere == b.sphere && a.toMeter == b.toMeter && a.axis == b.axis && a.fromGreenwich == b.fromGreenwich
+  && a.datumType == b.datumType && a.datumParams == b.datumParams && a.datumA == b.datumA && a.datumB == b.datumB
+  && a.datumEs == b.datumEs && a.datumEp2 == b.datumEp2
+
+/-- the parse result exists and every field a transformer reads equals `e` as an exact rational -/
+def isView (r : Except Err (SR XR)) (e : View XR) : Bool :=
+  match r with
+  | .ok sr => match view sr with | some v => v.beq e | none => false
+  | _ => false
+
+/-- both notations of `c` (in spelling `st`) parse, in exact arithmetic, to the intended reading -/
+def agree (c : Crs) (st : Style) : Bool :=
+  isView (parse (toProj4 c st)) (expected c) && isView (parse (toWkt c st)) (expected c)
+
+/-- a description with generic (pairwise distinct, not round) numbers for a given kind, unit and
+datum flavour (0: 3-term shift, 1: 7-term shift, 2: WGS84 by name, 3: NAD83 by name); the false
+origin is chosen so that its metre value is a finite decimal in every unit -/
+def sample (k : Kind) (u : UnitK) (dk : Nat) : Crs :=
+  let fe : Dec := ⟨39370000123, 4⟩
+  let fn : Dec := ⟨-7874000321, 4⟩
+  let m (d : Dec) : Dec := match u with
+    | .metre => d
+    | .foot => ⟨d.mant * 3048, d.scale + 4⟩
+    | _ => ⟨d.mant * 3048006096012192, d.scale + 16⟩
+  { kind := k, lat0 := ⟨4366666, 5⟩, lat1 := ⟨443333, 4⟩, lat2 := ⟨46125, 3⟩, lon0 := ⟨-1205, 1⟩, k0 := ⟨9996, 4⟩,
+    fe := fe, fn := fn, feM := m fe, fnM := m fn, a := ⟨6378206400, 3⟩, rf := ⟨2949786982, 7⟩,
+    towgs := match dk with
+      | 0 => some [⟨-87, 0⟩, ⟨-98, 0⟩, ⟨-121, 0⟩]
+      | 1 => some [⟨4464, 1⟩, ⟨-1251, 1⟩, ⟨5420, 1⟩, ⟨15, 2⟩, ⟨247, 3⟩, ⟨8421, 4⟩, ⟨-204894, 4⟩]
+      | _ => none,
+    unit := u, datum := match dk with | 2 => .wgs84 | 3 => .nad83 | _ => .custom }
+
+def styleOgc : Style := {}
+def styleEsri : Style := { esri := true }
+def styleBusy : Style := { auth := true, spaces := true, axis := true, k0key := true, title := true }
+def styleEsriBusy : Style := { esri := true, spaces := true, axis := true, k0key := true }
+
+/-- the finite family checked by the kernel in `C20_parse_agree_partial`: every kind with every
+unit, every datum flavour and every spelling switch at least once -/
+def family (k : Kind) : List (Crs × Style) :=
+  [(sample k .metre 0, styleOgc), (sample k .foot 1, styleEsri), (sample k .usFootDec 2, styleBusy), (sample k .metre 3, styleEsriBusy)]
+
 /-! ## tolerances for the compiled code (numeric part of the property) -/
 
 /-- one micrometre, in metres -/
